@@ -161,7 +161,10 @@ def main():
                 else:
                     chk.violation("C08|to_flat-error", {**w, "observed": r})
                 continue
-            bad = [k for k in ("flat_rt_eq", "flat_idem", "flat_nd_rt_eq", "flat_fake_idem", "flat_fake_rt_eq", "flat_name_rt_eq", "cbor_rt_eq", "cbor_idem", "hex_is_cbor", "hex_rt_eq") if r.get(k) is not True]
+            # flat_rt_tree_eq: equality including the CBOR shape of embedded Data (definite vs
+            # indefinite arrays / maps, int vs bignum): Data travels through flat as its CBOR bytes, so
+            # a script that arrives as bytes must keep them (Program's PartialEq ignores the shape)
+            bad = [k for k in ("flat_rt_tree_eq", "flat_rt_eq", "flat_idem", "flat_nd_rt_eq", "flat_fake_idem", "flat_fake_rt_eq", "flat_name_rt_eq", "cbor_rt_eq", "cbor_idem", "hex_is_cbor", "hex_rt_eq") if r.get(k) is not True]
             flat = bytes.fromhex(r.get("flat", ""))
             if r.get("cbor") != (cbor_bytes_header(len(flat)) + flat).hex():
                 bad.append("cbor-wrapper")
